@@ -54,7 +54,8 @@ DICT_OPS = ['d_setitem', 'd_setattr', 'd_delitem', 'd_pop', 'd_popitem', 'd_clea
             'd_update', 'd_setdefault', 'd_ior', 'd_copy']
 OBJ_OPS = ['o_setattr']
 ANY_OPS = ['rebind', 'rebind', 'rebind_fn', 'clone', 'clone_shallow', 'copy_copy', 'deepcopy',
-           'json_rt', 'pickle_rt', 'seal', 'unseal', 'accessor_on', 'accessor_off', 'construct']
+           'json_rt', 'pickle_rt', 'seal', 'unseal', 'accessor_on', 'accessor_off', 'construct',
+           'twin_assign']
 SCOPES = {
     'notify_on_change': pg.notify_on_change,
     'as_sealed': pg.as_sealed,
@@ -118,6 +119,8 @@ def gen_root(rng, prop):
         flags['sealed'] = rng.random() < 0.5
         flags['accessor_writable'] = rng.random() < 0.6
     if prop == 'C02':
+        if r < 0.12:     # a long list: indices with one and with two digits
+            return {'kind': 'val', 'v': ['list', [['int', i] for i in range(rng.randint(11, 14))]]}
         if r < 0.5:
             return {'kind': 'val', 'v': ['list', [gen_plain(rng, 1) for _ in range(rng.randint(0, 5))]]}
         return {'kind': 'val', 'v': gen_plain_dict(rng)}
@@ -361,9 +364,20 @@ def gen_op(rng, prop):
             if v[0] == 'typed':
                 pth = pth[:-1] + [['new', v[1]]]
             a['paths'].append([pth, v])
+        if rng.random() < 0.2:
+            # a batch of item updates / insertions on one (possibly long) list
+            a['paths'] = []
+            for i in rng.sample(range(0, 14), rng.randint(2, 3)):
+                v = gen_value_arg(rng, prop)
+                if rng.random() < 0.4:
+                    v = ['insertion', v]
+                a['paths'].append([[['abs', i]], v])
         a['notify_parents'] = rng.random() < 0.85
         a['skip_notification'] = rng.choice([None, None, None, True, False])
         a['reject_at'] = rng.randint(0, 3) if rng.random() < 0.15 else None
+    if k == 'twin_assign':
+        a['i'] = rng.randint(0, 7)
+        a['how'] = rng.choice(['item', 'item', 'rebind'])
     if k == 'construct':
         a['v'] = gen_value_arg(rng, prop)
         a['shape'] = rng.choice(['obj_twice', 'obj_nested', 'obj_pos', 'dict_twice', 'list_twice',
@@ -1016,6 +1030,36 @@ def op_construct(f, t, a, out):
     return r
 
 
+def op_twin_assign(f, t, a, out):
+    """Copies one field from a tree into its deep clone ("take this part of the base
+    configuration over into the experiment"): the value is a member of the original,
+    the receiving container is value-equal to the one it sits in, same path, same key."""
+    root = t.sym_root
+    with pg.as_sealed(False), pg.allow_partial(None):
+        twin_root = root.clone(deep=True)
+    out.new_roots.append(twin_root)
+    t2 = twin_root.sym_get(t.sym_path) if t.sym_path else twin_root
+    if isinstance(t, pg.List):
+        if not len(t):
+            return twin_root
+        k = resolve_index(t, ['existing', a['i']])
+        v = t.sym_getattr(k)
+    else:
+        k = resolve_key(t, ['existing', a['i']])
+        if not t.sym_hasattr(k):
+            return twin_root
+        v = t.sym_getattr(k)
+    if a['how'] == 'rebind':
+        t2.rebind({k: v}, raise_on_no_change=False)
+    elif isinstance(t2, pg.Object):
+        if not isinstance(k, str) or not k.isidentifier():
+            return twin_root
+        setattr(t2, k, v)
+    else:
+        t2[k] = v
+    return twin_root
+
+
 def op_clone(f, t, a, out):
     r = t.clone(deep=True)
     out.new_roots.append(r)
@@ -1585,6 +1629,20 @@ class C02Oracle(OracleBase):
                         return None
             if a.get('reject_at') is not None:
                 res['skip'] = True
+                return None
+            if len(paths) > 1 and isinstance(m, list) and \
+                    all(len(keys) == 1 and isinstance(keys[0], int) and 0 <= keys[0] < len(m)
+                        and vd[0] != 'missing' for keys, vd in paths) and \
+                    len({keys[0] for keys, _ in paths}) == len(paths):
+                # item updates / insertions on the receiving list itself, all in range:
+                # the indices refer to the list as it was before the call (the library
+                # applies them from the largest index down for that reason)
+                for keys, vd in sorted(paths, key=lambda p: p[0][0], reverse=True):
+                    if vd[0] == 'insertion':
+                        m.insert(keys[0], mat(vd[1]))
+                    else:
+                        m[keys[0]] = mat(vd)
+                self.probes['list_batches_judged'] = self.probes.get('list_batches_judged', 0) + 1
                 return None
             if len(paths) > 1:
                 parents = [tuple(keys[:-1]) for keys, _ in paths]
@@ -2727,6 +2785,16 @@ class C09Oracle(OracleBase):
                                      f'location held {want_old!r:.80} and now holds {want_new!r:.80}',
                                      step)
                             return
+            # an overlapping batch (receivers move while it is applied) is not judged in
+            # detail, but the root never moves: when its contents changed it hears about it
+            if batch_shift and out.status == 'ok' and _subscribes(root) and \
+                    pre_plain != post_plain and id(root) not in got and \
+                    (out.notify_parents or out.target is root):
+                self.bad('C09.not-notified', f'{k}|root-of-overlapping-batch',
+                         f'{k}{json.dumps(op["a"])[:160]} changed the tree below the subscribing '
+                         f'{type(root).__name__} root but the root received no event '
+                         f'(events went to {len(events)} other receiver(s))', step)
+                return
             # children before parents
             order = [rid for rid, _ in events if rid in expected]
             for i in range(len(order)):
